@@ -8,6 +8,7 @@ import (
 	"fmt"
 	"github.com/emersion/go-webdav/internal"
 	"os"
+	"net/url"
 	"strings"
 )
 
@@ -113,3 +114,63 @@ var xmlCTSpellings = []string{"application/xml; charset=utf-8", "application/xml
 	"Application/XML; Charset=Utf-8", "application/xml;charset=utf-8", "text/xml; charset=utf-8", "application/xml; charset=\"utf-8\""}
 
 func xmlCTSpelling(k int) string { return xmlCTSpellings[k%len(xmlCTSpellings)] }
+
+// spellings of one path as an href that denote the same path (RFC 3986 §6.2.2: hex digits of either case, unreserved
+// characters escaped or not; an absolute URI instead of a path; never an escaped slash, which is not equivalent)
+var hrefSpellCounter int
+
+func hrefSpelling(p string) string { return hrefSpellingX(p, true) }
+
+// (the request-side model of hrefs covers path-only references: multiget documents sent to the servers do not use the
+// absolute-URI spelling)
+func hrefSpellingPath(p string) string { return hrefSpellingX(p, false) }
+
+func hrefSpellingX(p string, abs bool) string {
+	canon := (&url.URL{Path: p}).String()
+	hrefSpellCounter++
+	if !abs && hrefSpellCounter%6 == 3 {
+		hrefSpellCounter++
+	}
+	switch hrefSpellCounter % 6 {
+	case 1: // lower-case hex digits
+		var b strings.Builder
+		for i := 0; i < len(canon); i++ {
+			if canon[i] == '%' && i+2 < len(canon) {
+				b.WriteString(strings.ToLower(canon[i : i+3]))
+				i += 2
+			} else {
+				b.WriteByte(canon[i])
+			}
+		}
+		return b.String()
+	case 2: // characters escaped that need not be
+		var b strings.Builder
+		for i := 0; i < len(p); i++ {
+			c := p[i]
+			switch {
+			case c == '/':
+				b.WriteByte(c)
+			case c == '@' || c == '~' || c == '-' || c == '.' || c == '_' || c == '+' || c == '!' || (c >= '0' && c <= '9'):
+				fmt.Fprintf(&b, "%%%02X", c)
+			case c >= 'a' && c <= 'z' || c >= 'A' && c <= 'Z':
+				b.WriteByte(c)
+			default:
+				fmt.Fprintf(&b, "%%%02X", c)
+			}
+		}
+		return b.String()
+	case 3:
+		return "http://example.com" + canon
+	case 4: // every byte but the slashes escaped
+		var b strings.Builder
+		for i := 0; i < len(p); i++ {
+			if p[i] == '/' {
+				b.WriteByte('/')
+			} else {
+				fmt.Fprintf(&b, "%%%02x", p[i])
+			}
+		}
+		return b.String()
+	}
+	return canon
+}
